@@ -34,6 +34,7 @@ func VerifH_C11_gatewayMAC() {
 		routes = append(routes, rt)
 	}
 	ip.VerifHost.Routes = routes
+	ip.VerifHost.Routes6 = []netlink.Route{{LinkIndex: 1, Priority: 0, Gw: net.ParseIP("fe80::1")}, {LinkIndex: 2, Priority: 0, Gw: net.ParseIP("fe80::2")}}
 	cache := arp.NewCache()
 	macs := [2]net.HardwareAddr{{2, 0, 0, 0, 0, 0xa}, {2, 0, 0, 0, 0, 0xb}}
 	// the two gateway addresses differ (otherwise the cache has one entry for both)
